@@ -292,8 +292,8 @@ BUILDER = {
     },
     "C03": {
         "invariants": ["Inv_C03"],
-        "exh": {"quick": [("C03_Docs", 2, 2), ("C03_DocsMd", 2, 2), ("C03_Docs3", 3, 3), ("C03_DocsMdS", 3, 3)],
-                "thorough": [("C03_Docs2", 2, 2), ("C03_DocsMd", 2, 3), ("C03_Docs3", 3, 3), ("C03_DocsMdS", 3, 4)]},
+        "exh": {"quick": [("C03_Docs", 2, 2), ("C03_DocsMd", 2, 2), ("C03_Docs3", 3, 3), ("C03_DocsMdS", 3, 3), ("C03_DocsNull", 2, 3)],
+                "thorough": [("C03_Docs2", 2, 2), ("C03_DocsMd", 2, 3), ("C03_Docs3", 3, 3), ("C03_DocsMdS", 3, 4), ("C03_DocsNull", 2, 3)]},
         "mutations": [{"switch": "ShallowPriority", "docs": "C03_Docs", "stages": (2, 2), "expect": ["Inv_C03"]},
                       {"mutation": "PriorityGE", "docs": "C03_Docs", "stages": (2, 2), "expect": ["Inv_C03"]},
                       {"mutation": "MdSpreadSwapped", "docs": "C03_DocsMd", "stages": (2, 2), "expect": ["Inv_C03"]}],
